@@ -13,6 +13,7 @@ import PMC.Model.Parser
 import PMC.Generated.Grammar
 import PMC.Model.Classes
 import PMC.Model.Fair
+import PMC.Model.LTLAtoms
 import PMC.Generated.ClassTable
 open PMC
 
@@ -291,6 +292,25 @@ def decFair (s : String) : Option (List (List Nat)) :=
   else if t == "-" then some []
   else some ((t.splitOn ";").map natList)
 
+/-! ### LTL tableau atoms as the code builds them (PMC/Model/LTLAtoms.lean)
+
+  `LTLCLOSURE|<sexpr>`                         closure of a restricted formula: `key sexpr;key sexpr;…`
+  `LTLATOMS|<graph>|<labels>|<sexpr>|<order>`  `<order>` = the processing order `cl_list` as `;`-separated S-expressions
+                                               (or `default`); answer
+                                               `adm=<bool> inv=<bool> built=<states> decl=<states> atoms=<state>:<sexpr>,<sexpr>…;…`
+  `LTLMCB|<graph>|<labels>|<sexpr>`            `modelcheckBuilt defaultOrder` -/
+
+def decRFm (s : String) : Option LTL.RFm := (decFm s).bind LTL.toR
+
+def encRFm (f : LTL.RFm) : String := encFm (LTL.ofR f)
+
+def decOrder (g : LTL.RFm) (s : String) : Option (List LTL.RFm) :=
+  if s.trimAscii.toString == "default" then some (LTL.defaultOrder g)
+  else ((s.splitOn ";").filter (fun t => !(words t).isEmpty)).mapM decRFm
+
+def encBAtoms (A : List (LTL.BAtom Nat)) : String :=
+  ";".intercalate (A.map (fun a => s!"{a.1}:" ++ ",".intercalate (a.2.map encRFm)))
+
 /-! ### dispatch -/
 
 def step (line : String) : String :=
@@ -401,6 +421,24 @@ def step (line : String) : String :=
        | some .CTL, some f => encExcept encFm (Fair.nonFairCTL (decName fair) f)
        | some _, some f => encFm (Fair.nonFairCTLS (decName fair) f)
        | _, _ => "bad-op")
+  | ["LTLCLOSURE", f] =>
+      (match decRFm f with
+       | some g => ";".intercalate ((LTL.closure g).map (fun φ => s!"{LTL.sortKey φ} " ++ encRFm φ))
+       | none => "bad-formula")
+  | ["LTLATOMS", g, l, f, ord] =>
+      (match decRFm f with
+       | some r =>
+         (match decOrder r ord with
+          | some cl =>
+            let K := decKripke g l
+            s!"adm={LTL.admissibleB r cl} inv={LTL.atomsInvariantB K cl} dead={((LTL.buildAtoms K cl).filter (LTL.isDead cl)).length} built=" ++ encSet (LTL.checkEBuilt K r cl) ++
+              " decl=" ++ encSet (LTL.checkE K r) ++ " atoms=" ++ encBAtoms (LTL.buildAtoms K cl)
+          | none => "bad-order")
+       | none => "bad-formula")
+  | ["LTLMCB", g, l, f] =>
+      (match decFm f with
+       | some f => encExcept encSet (LTL.modelcheckBuilt LTL.defaultOrder (decKripke g l) f)
+       | none => "bad-formula")
   | ["BDD", names, ops] =>
       " ; ".intercalate (bddHistory (words names).toArray ((ops.splitOn ";").map (·.trimAscii.toString)))
   | _ => "bad-op"
